@@ -23,12 +23,17 @@
  *     or is a rejection with the same errno; a get-all reply may omit an attribute only if its value does
  *     not fit the 512-byte field, if it is tls.key, or if the 64-entry table is full (DESIGN 4.1) - never
  *     return it altered, with a length above the field, or under a wrong message type;
+ *   - passivity: every application call made while sessions are served returns what it returns without a control
+ *     client - idle xcm_receive / xcm_accept -1(NULL)/EAGAIN, xcm_finish 0 (or -1/EAGAIN while something is under
+ *     way), script calls never a terminal errno (value AND errno are compared);
  *   - a well-formed request on a healthy session is answered (no silent drop, no lost wake-up);
  *   - the control files are gone when their sockets have been closed.
  *
  * params: tp=ux|uxf|tcp|tls  target=srv|a|b  big=0|1  scert=<dir> ccert=<dir>  names=<n>
  *         c0=<spec> c1=<spec> c2=<spec>   spec: r:<items> | x:<items> | r*<maxlen> | x*<maxlen>
  *         alpha=<items>  rel=<stage>  svc=all|none  pumpn=<n>  menu=<hex>  horizon=<n>  mon=0|1
+ *         idle=0|1 (default 1): once the owner's script is complete the control interface is served through idle
+ *                    xcm_receive / xcm_accept calls (each must say EAGAIN) instead of xcm_finish pumps
  *         probe16=1: C16 probe - sessions are kept open at the end and xcm_fd of the idle target must be quiet
  *                    (an empty session "r:" as the last client is the one beyond the two-entry session table)
  *   items  a get-attr xcm.type          b get-attr <long attribute>      k get-attr tls.key
@@ -357,17 +362,72 @@ static const char *api_label(const char *base)
     return lb;
 }
 
+/* Passivity: the control interface is served at the END of the application's own calls, so every call made
+   while sessions are being served must return what the same call returns in the same state without any control
+   client - return value AND errno. */
+static void not_passive(const char *call, const char *got, const char *want)
+{
+    char sig[160];
+    snprintf(sig, sizeof sig, "C14/passivity/%s/%s-instead-of-%s/tp=%s", call, got, want, g_tp);
+    V(sig, "%s on the idle target socket returned %s while control sessions were being served; without a control client "
+      "the same call in the same state returns %s (last control item sent: '%c')", call, got, want, g_last_item ? g_last_item : '-');
+}
+
 static void pump(struct xcm_socket *s)
 {
     unsigned saved = env_cfg()->io_menu;
+    int bad_errno = 0;
     env_cfg()->io_menu = saved & (ENV_IO_SEQPKT | ENV_IO_ACCEPT);
     mc_api_begin(api_label("pump"), 1);
     for (int i = 0; i < g_pumpn; i++)
-        xcm_finish(s);
+        if (xcm_finish(s) < 0 && errno != EAGAIN && !bad_errno)
+            bad_errno = errno;
     mc_api_end();
     env_cfg()->io_menu = saved;
     g_pumps++;
     mc_count(2, 1);
+    /* no fault is injected and the peer is alive: xcm_finish says 0, or -1/EAGAIN while something is under way */
+    if (bad_errno && !A.failed && !B.failed && !A.closed && !B.closed)
+        not_passive("xcm_finish", errname(bad_errno), "0-or-EAGAIN");
+}
+
+/* The same service for a target that is IDLE (script complete, everything received and flushed, peer alive; a
+   server socket with no connection pending): the calls an event loop makes when woken for nothing.  Each of them
+   ends in EAGAIN, which advances the library's cadence counter by 64: the fifth serves the control interface -
+   inside a call whose own result is -1/EAGAIN (NULL/EAGAIN for xcm_accept). */
+static void pump_idle(struct side *x, struct xcm_socket *s)
+{
+    unsigned saved = env_cfg()->io_menu;
+    int server = s == g_server;
+    char got[48] = "";
+    env_cfg()->io_menu = saved & (ENV_IO_SEQPKT | ENV_IO_ACCEPT);
+    mc_api_begin(api_label(server ? "idle-xcm_accept" : "idle-xcm_receive"), 1);
+    for (int i = 0; i < 5; i++) {
+        if (server) {
+            struct xcm_socket *c = xcm_accept(s);
+            int e = errno;
+            if (c) {
+                xcm_close(c);
+                if (!got[0])
+                    snprintf(got, sizeof got, "a-connection");
+            } else if (e != EAGAIN && !got[0])
+                snprintf(got, sizeof got, "%s", errname(e));
+        } else {
+            int rc = xcm_receive(s, g_buf[x->idx], MAXMSG);
+            int e = errno;
+            if (rc >= 0 && !got[0])
+                snprintf(got, sizeof got, "%d", rc);
+            else if (rc < 0 && e != EAGAIN && !got[0])
+                snprintf(got, sizeof got, "%s", errname(e));
+        }
+    }
+    mc_api_end();
+    env_cfg()->io_menu = saved;
+    g_pumps++;
+    mc_count(2, 1);
+    mc_count(6, 5);
+    if (got[0])
+        not_passive(server ? "xcm_accept" : "xcm_receive", got, "EAGAIN");
 }
 
 static int owns_target(struct side *x)
@@ -565,7 +625,7 @@ static void run_script(struct side *x)
    session) until the probe has been taken; a client with an empty session (the one meant to sit beyond the
    two-entry session table) connects only when all clients before it have parked, so that it really is the one
    left un-accepted in the listen queue. */
-static int g_probe16, g_probe_done;
+static int g_probe16, g_probe_done, g_idle = 1;
 static int g_settled;                /* clients parked or gone */
 
 static int probe_over(void *arg)
@@ -659,7 +719,11 @@ static void serve(struct side *x)
             mc_wait_cond(svc_ready, NULL, "serve");
             if (svc_goal_met())
                 break;
-            pump(g_tsock);
+            /* idle target, living peer: serve through the calls of an event loop woken for nothing */
+            if (g_idle && x->pc >= 5 && !x->failed && !peer_of(x)->failed && !peer_of(x)->closed)
+                pump_idle(x, g_tsock);
+            else
+                pump(g_tsock);
             mc_observe("%s served the control interface (pump %d)", x->name, g_pumps);
             mc_set_progress(0);
         }
@@ -1411,6 +1475,7 @@ static void scenario(const char *params)
     g_rel = (int)param_int(params, "rel", 0);
     g_pumpn = (int)param_int(params, "pumpn", 257);
     g_probe16 = (int)param_int(params, "probe16", 0);
+    g_idle = (int)param_int(params, "idle", 1);
     if (strlen(g_alpha) > 15)
         mc_fail("internal/alphabet", "at most 15 items per free choice");
     for (int i = 0; i < MAXCL; i++) {
